@@ -357,7 +357,7 @@ class BoxCox2(Transform):
     def _forward(self, x):
         nu, lam = self.params.values
         if abs(lam) > EPS:
-            return (np.power(x + nu, lam) - 1) / lam
+            return np.expm1(lam * np.log(x + nu)) / lam
         else:
             return np.log(x + nu)
 
@@ -365,8 +365,7 @@ class BoxCox2(Transform):
         nu, lam = self.params.values
 
         if abs(lam) > EPS:
-            u = lam * y + 1
-            return np.power(u, 1. / lam) - nu
+            return np.exp(np.log1p(lam * y) / lam) - nu
         else:
             return np.exp(y) - nu
 
